@@ -51,6 +51,16 @@ func main() {
 		os.Exit(2)
 	}
 	switch os.Args[1] {
+	case "strabs":
+		// debugging aid: print the string abstraction of an SMT-LIB file
+		data, _ := os.ReadFile(os.Args[2])
+		q, ok := AbstractStringsQuery(string(data))
+		if !ok {
+			fmt.Fprintln(os.Stderr, "not abstractable")
+			os.Exit(1)
+		}
+		fmt.Print(q)
+		return
 	case "check":
 		os.Exit(cmdCheck(os.Args[2:]))
 	case "lang":
@@ -156,6 +166,11 @@ func cmdCheck(args []string) int {
 	r.extraCov["vc_generation_s"] = round2(tGen)
 	if os.Getenv("GOVC_TIMING") != "" {
 		fmt.Printf("timing: load+vcgen %.1fs, discharge %.1fs, %d obligations\n", tGen, time.Since(r.t0).Seconds()-tGen, len(e.obls))
+		for _, o := range e.obls {
+			if o.Secs > 2 {
+				fmt.Printf("  slow: %.1fs %s %s [%s]\n", o.Secs, o.Verdict, o.Name, o.Solver)
+			}
+		}
 	}
 	return r.report(*updateLock, *verbose, *noEvidence)
 }
